@@ -308,7 +308,7 @@ func c05HistWeightClass(w *c05World) string { return c05WeightClass(w.weights) }
 func TestVerifC05Histories(t *testing.T) {
 	c05Quiet()
 	p := vreport.Begin("C05", "histories-bfs", time.Duration(vreport.Pick(6, 40))*time.Minute)
-	depth := vreport.Pick(4, 5)
+	depth := vreport.Pick(5, 6)
 	shardI, shardN := vreport.Shard()
 	alphabet := c05AlphabetFor(3) // largest set has 3 hosts
 
